@@ -12,6 +12,15 @@ def rapid(name, test, quick, thorough, **kw):
     return d
 
 CHECKS = {
+    "C07": {
+        "level": "exploration",
+        "phases": [
+            rapid("prop", "TestProp",
+                  {"checks": 30000, "shards": 12, "timeout": 400},
+                  {"checks": 400000, "shards": 16, "timeout": 2400},
+                  ulimit_v=8388608),
+        ],
+    },
     "C06": {
         "level": "exploration",
         "phases": [
